@@ -288,7 +288,7 @@ def coq_eval(ctx, imports, expr):
 # known findings, replays, evidence
 # --------------------------------------------------------------------------------------
 def load_known(pid):
-    p = os.path.join(VERIF, "known_findings.json")
+    p = os.path.join(VERIF, "known_findings", f"{pid}.json")
     if not os.path.exists(p):
         return []
     return [k for k in json.load(open(p))["findings"] if k["property"] == pid]
